@@ -233,7 +233,24 @@ def run_case(spec_msgs, lead, chunk):
     msgs = [e[1] for e in s.transport.events if e[0] == 'bytes']
     fd_groups = expect
     delivered_fd = 0
-    for i, raw in enumerate(msgs):
+    if chunk == 'all':
+        # one large read: every descriptor is already queued, all the messages complete within one dataReceived call
+        for g in fd_groups:
+            for f in g:
+                r.fileDescriptorReceived(f)
+        r.dataReceived(b''.join(msgs))
+        msgs_iter = []
+    else:
+        msgs_iter = list(enumerate(msgs))
+    for i, raw in msgs_iter:
+        if chunk == 'mid':
+            # the descriptors of a message arrive while it is being read: after its fixed header, before its last byte
+            r.dataReceived(raw[:20])
+            for f in fd_groups[i]:
+                r.fileDescriptorReceived(f)
+            r.dataReceived(raw[20:-1])
+            r.dataReceived(raw[-1:])
+            continue
         upto = min(len(msgs), i + 1 + lead)
         while delivered_fd < upto:
             for f in fd_groups[delivered_fd]:
@@ -246,7 +263,7 @@ def run_case(spec_msgs, lead, chunk):
     for i, (m, fds) in enumerate(zip(r.got, expect)):
         got_fds = list(m.body[1]) if arrays[i] else list(m.body[1:])
         if got_fds != fds:
-            return 'message %d %r: descriptor arguments %r, expected %r (lead %d, read size %d)' % (i, spec_msgs[i], m.body[1:], fds, lead, chunk)
+            return 'message %d %r: descriptor arguments %r, expected %r (lead %d, read size %s)' % (i, spec_msgs[i], m.body[1:], fds, lead, chunk)
     if r._receivedFDs:
         return 'descriptors left in the queue after all messages: %r' % (r._receivedFDs,)
     return None
@@ -355,6 +372,25 @@ def callremote_fresh_list_case():
     got = [(list(m.oobFDs), getattr(m, 'unix_fds', None)) for m in sent]
     if got != [([5], 1), ([], None), ([6, 7], 2)]:
         return 'callRemote sequence carried %r' % (got,)
+    # through the real sendMessage, calls that expect no reply included: descriptors go to the transport ahead of the bytes
+    from twisted.internet.testing import StringTransport
+
+    class Tr(StringTransport):
+        def __init__(self):
+            StringTransport.__init__(self)
+            self.events = []
+        def sendFileDescriptor(self, fd): self.events.append(('fd', fd))
+        def write(self, data): self.events.append(('bytes', len(data)))
+    for expect in (True, False):
+        c = client.DBusClientConnection()
+        c.transport = Tr()
+        c._pendingCalls = {}
+        c.callRemote('/o', 'Take', interface='org.e.I', signature='hsh', body=[11, 'x', 12], expectReply=expect)
+        c.callRemote('/o', 'Plain', interface='org.e.I', signature='s', body=['y'], expectReply=expect)
+        c.callRemote('/o', 'One', interface='org.e.I', signature='h', body=[13], expectReply=expect)
+        kinds = [e if e[0] == 'fd' else ('bytes',) for e in c.transport.events]
+        if kinds != [('fd', 11), ('fd', 12), ('bytes',), ('bytes',), ('fd', 13), ('bytes',)]:
+            return 'calls carrying descriptors (expectReply=%s): the transport saw %r, expected each call\'s descriptors ahead of its bytes' % (expect, kinds)
     return None
 
 
@@ -371,7 +407,7 @@ def bounded(tier, seed):
     base.append([(kinds[i % 3], 1 + i % 3) for i in range(24)])
     for seq in base:
         for lead in (0, 1, 2, len(seq)):
-            for chunk in ((1, 3, 16, 17, 100, 10 ** 6) if tier == 'thorough' else (1, 17, 10 ** 6)):
+            for chunk in ((1, 3, 16, 17, 100, 10 ** 6, 'all', 'mid') if tier == 'thorough' else (1, 17, 10 ** 6, 'all', 'mid')):
                 n += 1
                 try:
                     f = run_case(seq, lead, chunk)
